@@ -83,3 +83,8 @@ pub fn vx_vec_of<T, const N: usize>(a: [T; N]) -> (r: Vec<T>) ensures r@ == a@ {
 pub fn vx_map_entry_refs_boxed<'a>(m: &'a Map) -> (r: Box<Vec<(&'a Key<'static>, &'a Value)>>)
     ensures lists(derefs(r@), m@)
 { unimplemented!() }
+// `Value: Clone` (derived in the real source): the clone is an equal value
+impl Clone for Value {
+    #[verifier::external_body]
+    fn clone(&self) -> (r: Self) ensures r == *self { unimplemented!() }
+}
